@@ -181,6 +181,14 @@ def run_case(spec, j):
   M = est.get_mahalanobis_matrix()
   nM = max(np.abs(M).max(), 1e-300)
   lamM = np.linalg.eigvalsh((M + M.T) / 2)
+  # M = L'L is computed from components_: its smallest eigenvalue carries a
+  # rounding error of a few ulps of the largest (runs that exhaust max_iter
+  # on hard constraints end at cond ~ 1e16: -4e-12 next to 1.3e5 was seen,
+  # thorough tier, seed 4); below that level definiteness is not decidable
+  floor = 100 * EPS * d * nM
+  if abs(lamM.min()) <= floor and np.abs(M - M.T).max() <= 1e-9 * nM:
+    j.skip('C11', 'metric-singular-to-rounding')
+    return
   j.check('C11.M-spd', np.abs(M - M.T).max() <= 1e-9 * nM and lamM.min() > 0,
           dict(det, lambda_min=lamM.min()))
   if lamM.min() <= 0:
